@@ -594,6 +594,44 @@ def firstError (excl om : Bool) : List (List Track) → Option String
     else if (extractGroup excl om g).isNone then some "RuntimeError"
     else firstError excl om gs
 
+/-! ## `KymoTrackGroup.fit_binding_times`: option defaults and error branches in front of the model -/
+
+/-- what `fit_binding_times` has decided when it constructs the `DwelltimeModel` -/
+structure FitCall where
+  rows : List Row
+  /-- `RuntimeWarning` "Some dwell times are zero" -/
+  removedZeros : Bool
+  /-- the minimum-time mode that was used (`observed_minimum` after the default) -/
+  observedMin : Bool
+  /-- `discretization_timestep=time_step if discrete_model else None` -/
+  stepHanded : Bool
+  /-- `UserWarning`: `observed_minimum` not given — the legacy default `True` is used -/
+  warnObservedMin : Bool
+  /-- `UserWarning`: `discrete_model` not given — the continuous model is used -/
+  warnDiscrete : Bool
+deriving Repr, DecidableEq
+
+/-- `fit_binding_times(n_components, exclude_ambiguous_dwells=…, observed_minimum=…, discrete_model=…)` up to the
+    constructor call: empty group → `RuntimeError`; `None` options take their legacy defaults; `n_components ∉ {1, 2}` →
+    `ValueError`; the extraction's own errors; no row left → `RuntimeError` -/
+def fitBindingTimes (nComp : Nat) (excl : Bool) (om disc : Option Bool) (tracks : List Track) :
+    Except String FitCall :=
+  if tracks = [] then .error "RuntimeError"
+  else
+    let om' := om.getD true
+    let disc' := disc.getD false
+    if nComp ≠ 1 ∧ nComp ≠ 2 then .error "ValueError"
+    else match firstError excl om' (tracksByKymo tracks) with
+      | some e => .error e
+      | none => match extract excl om' tracks with
+        | none => .error "RuntimeError"
+        | some (rows, removed) =>
+          if rows = [] then .error "RuntimeError"
+          else .ok ⟨rows, removed, om', disc', om.isNone, disc.isNone⟩
+
+def optBool? (s : String) : Option (Option Bool) :=
+  if s == "N" then some none else (bool? s).map some
+
 def soa? (s : String) : Option SoA :=
   if s.startsWith "[" then (floatList? s).map .arr else (float? s).map .scalar
 
@@ -681,6 +719,15 @@ def handle : List String → Option String
       some (showList showBool a.fitted ++ " " ++ showFloatList a.x0 ++ " " ++ showFloatList a.lo ++ " "
         ++ showFloatList a.hi ++ " " ++ showFloatList a.params ++ " " ++ showFloat a.loglik ++ " "
         ++ showFloatList a.grad)
+  -- fit_binding_times up to the constructor call: n_components, flags (N = not given), then one token per track
+  | "c15.fbt" :: n :: excl :: om :: disc :: tracks => do
+    let n ← nat? n; let excl ← bool? excl; let om ← optBool? om; let disc ← optBool? disc
+    let tracks ← tracks.mapM track?
+    match fitBindingTimes n excl om disc tracks with
+    | .error e => some e
+    | .ok c =>
+      some (showBool c.observedMin ++ " " ++ showBool c.stepHanded ++ " " ++ showBool c.warnObservedMin ++ " "
+        ++ showBool c.warnDiscrete ++ " " ++ showList showRow c.rows ++ " " ++ showBool c.removedZeros)
   -- dwell-time extraction: flags, then one token per track
   | "c15.extract" :: excl :: om :: tracks => do
     let excl ← bool? excl; let om ← bool? om
